@@ -20,7 +20,7 @@ RULE = (
 	'identifiers; a string stream built from valid texts by one edit each (character outside the alphabet, lower case, wrong length, '
 	'padding character, white space / line ends before, after and instead of the last character, other network kind, wrong identifier, each checksum byte perturbed, structured wrong checksums (every other window digest[k:k+n] of the checksum hash, rotations, reversal, swaps, XOR-cancelling and sum-preserving byte differences, the checksum of another network byte / without the network byte / under the other chain hash, zero-padded prefixes and suffixes, stray bytes before and after the right checksum) through text and bytes, each hash byte region perturbed, Symbol '
 	'last-character aliases) plus random alphabet / non-alphabet strings; an address-bytes stream (derived, every checksum byte perturbed, '
-	'identifier perturbed, random 24/25-byte arrays, odd lengths through a stub). A case is distinct by its (operation, arguments).')
+	'identifier perturbed, random 24/25-byte arrays, odd lengths through a stub). histories of calls on shared objects (one Address object: str, assign .bytes - checksum flipped, another valid address, the address of another identifier or of the other chain -, str again, validity through both entry points, Address(str(a)); one Network object for several keys in a row; public_key_to_address twice with the key object mutated in between; copies), every answer compared with the specification on the bytes the object holds at that moment. A case is distinct by its (operation, arguments).')
 TRUSTED_BASE = [
 	'Lean 4.33 kernel; axioms of the property theorems: subset of {propext, Classical.choice, Quot.sound}',
 	'hand-written models SymbolVerif/Model/Sdk/{Address,Base32}.lean, tied to the code by this differential run and by the constants '
@@ -452,6 +452,83 @@ def evaluate(modules, case):
 			text_verdict = attempt(lambda: network.is_valid_address_string(text))
 			out.require(('ok', bool(expected)) == text_verdict, f'is_valid_address_string(str(a)) is {text_verdict} but is_valid_address(a) should be {expected} for a = {hx(data)}')
 		out.branches.append(f'bytes:{kind}:{case.get("edit", "?")}:' + ('valid' if expected else 'invalid'))
+	elif 'history' == operation:
+		# several calls on shared objects (one network, a few address and key objects, `bytes` being a public attribute that is
+		# assigned): every answer is compared with the specification evaluated on the bytes the object holds NOW
+		networks = {}
+
+		def network_for(number):
+			if number not in networks:
+				networks[number] = make_network(modules, kind, number, case.get('shipped', False))
+			return networks[number]
+
+		addresses, current, keys, key_bytes = {}, {}, {}, {}
+		for number, step in enumerate(case['steps']):
+			action = step[0]
+			where = f'step {number} {step}'
+			if 'derive' == action:
+				_, key_name, key_hex, target, on = step
+				if key_name not in keys:
+					keys[key_name] = modules['PublicKey'](bytes.fromhex(key_hex))
+					key_bytes[key_name] = bytes.fromhex(key_hex)
+				address = network_for(on).public_key_to_address(keys[key_name])
+				expected = spec_address(kind, on, key_bytes[key_name])
+				out.require(
+					bytes(address.bytes) == expected,
+					f'{where}: address derived for the key the object holds now ({hx(key_bytes[key_name])}) is {hx(bytes(address.bytes))}, expected {hx(expected)}')
+				out.request(f'address {kind} {on} {hx(key_bytes[key_name])}', f'ok {hx(bytes(address.bytes))}')
+				addresses[target], current[target] = address, expected
+			elif 'mutate_key' == action:
+				_, key_name, key_hex = step
+				keys[key_name].bytes = bytes.fromhex(key_hex)
+				key_bytes[key_name] = bytes.fromhex(key_hex)
+			elif 'new' == action:
+				_, target, data_hex = step
+				addresses[target], current[target] = address_class(bytes.fromhex(data_hex)), bytes.fromhex(data_hex)
+			elif 'copy' == action:
+				_, source, target = step
+				addresses[target], current[target] = address_class(addresses[source]), current[source]
+			elif 'set' == action:
+				_, target, data_hex = step
+				addresses[target].bytes = bytes.fromhex(data_hex)
+				current[target] = bytes.fromhex(data_hex)
+			elif 'str' == action:
+				_, target = step
+				text = str(addresses[target])
+				expected = spec_text(current[target])[:sizes['encoded']]
+				out.require(text == expected, f'{where}: str of the address holding {hx(current[target])} is {text}, expected {expected}')
+				out.request(f'to_string {kind} {hx(current[target])}', sx(text))
+			elif 'roundtrip' == action:
+				_, target = step
+				back = attempt(lambda: address_class(str(addresses[target])))
+				out.require(
+					'ok' == back[0] and bytes(back[1].bytes) == current[target],
+					f'{where}: Address(str(a)) holds {hx(bytes(back[1].bytes)) if "ok" == back[0] else back[1]} but a holds {hx(current[target])}')
+				out.request(f'of_string {kind} {sx(spec_text(current[target])[:sizes["encoded"]])}', f'ok {hx(bytes(back[1].bytes))}' if 'ok' == back[0] else 'none')
+			elif 'valid' == action:
+				_, target, against = step
+				verdict = attempt(lambda: network_for(against).is_valid_address(addresses[target]))
+				expected = spec_valid_bytes(kind, against, current[target])
+				out.require(('ok', expected) == verdict, f'{where}: is_valid_address of the address holding {hx(current[target])} on identifier {against:#x} is {verdict}, expected {expected}')
+				out.request(f'is_valid {kind} {against} {hx(current[target])}', 'ok ' + bool_text(verdict[1]) if 'ok' == verdict[0] else 'none')
+			elif 'valid_text' == action:
+				_, target, against = step
+				verdict = attempt(lambda: network_for(against).is_valid_address_string(str(addresses[target])))
+				expected = spec_valid_string(kind, against, spec_text(current[target])[:sizes['encoded']])
+				out.require(
+					('ok', expected) == verdict,
+					f'{where}: is_valid_address_string(str(a)) for a holding {hx(current[target])} on identifier {against:#x} is {verdict}, expected {expected} '
+					f'(is_valid_address(a) should be {spec_valid_bytes(kind, against, current[target])})')
+				out.request(f'is_valid_string {kind} {against} {sx(spec_text(current[target])[:sizes["encoded"]])}', 'ok ' + bool_text(verdict[1]) if 'ok' == verdict[0] else 'none')
+			else:
+				raise ValueError(f'unknown step {action}')
+			for name, address in addresses.items():
+				out.require(bytes(address.bytes) == current[name], f'{where} changed address object "{name}": {hx(current[name])} -> {hx(bytes(address.bytes))}')
+			for name, key in keys.items():
+				out.require(bytes(key.bytes) == key_bytes[name], f'{where} changed key object "{name}": {hx(key_bytes[name])} -> {hx(bytes(key.bytes))}')
+			if out.property_failures:
+				break
+		out.branches.append(f'history:{kind}:{case.get("shape", "?")}')
 	elif 'base32' == operation:
 		data = bytes.fromhex(case['data'])
 		import base64
@@ -654,6 +731,65 @@ def generate(ctx, vectors):
 			cases.append({
 				'op': 'string', 'net': kind, 'id': identifier, 's': spec_text(other_bytes)[:KINDS[other_kind]['encoded']], 'edit': 'other-kind',
 				'shipped': True})
+	# histories on shared objects: str / mutate .bytes / str again, validity through both entry points, round trip; one network for
+	# several keys in a row; public_key_to_address twice with the key object mutated in between
+	for kind in KINDS:
+		other_kind = 'nem' if 'symbol' == kind else 'symbol'
+		for number in range(ctx.scale(240, 3000)):
+			identifier, shipped = gen_identifier(rng)
+			other = rng.choice(other_identifiers(identifier))
+			key_values = [rng.bytes_(32) for _ in range(4)]
+			valid = [spec_address(kind, identifier, key) for key in key_values]
+			up = lambda data: data.hex().upper()  # noqa: E731 pylint: disable=unnecessary-lambda-assignment
+
+			def corrupted(data):
+				changed = bytearray(data)
+				changed[rng.choice([21, 22, 23, len(data) - 1, rng.randrange(1, 21)])] ^= 1 << rng.randrange(8)
+				return bytes(changed)
+
+			def inspect(name):
+				return [['str', name], ['valid', name, identifier], ['valid_text', name, identifier], ['roundtrip', name], ['valid_text', name, other], ['valid', name, other]]
+
+			replacements = [
+				corrupted(valid[0]), valid[1], spec_address(kind, other, key_values[0]),
+				(spec_address(other_kind, identifier, key_values[0]) + bytes(1))[:KINDS[kind]['size']], rng.bytes_(KINDS[kind]['size']), valid[0]]
+			shape = ['str-mutate-str', 'mutate-before-first-str', 'several-keys-one-network', 'mutated-key-object', 'copies', 'random'][number % 6]
+			steps = []
+			if 'str-mutate-str' == shape:
+				steps += [['derive', 'k0', up(key_values[0]), 'a', identifier]] + inspect('a')
+				for replacement in rng.sample(replacements, 3) + [valid[0]]:
+					steps += [['set', 'a', up(replacement)]] + inspect('a')
+			elif 'mutate-before-first-str' == shape:
+				steps += [['new', 'a', up(valid[0])], ['valid', 'a', identifier], ['set', 'a', up(rng.choice(replacements[:3]))]] + inspect('a')
+				steps += [['set', 'a', up(valid[0])]] + inspect('a')
+			elif 'several-keys-one-network' == shape:
+				for position, key in enumerate(key_values):
+					on = identifier if 1 != position % 3 else other
+					steps += [['derive', f'k{position}', up(key), f'a{position}', on], ['str', f'a{position}'], ['valid', f'a{position}', identifier], ['valid_text', f'a{position}', on]]
+				steps += [['derive', 'k0', up(key_values[0]), 'again', identifier], ['str', 'again'], ['str', 'a0'], ['valid_text', 'a3', identifier], ['roundtrip', 'a1']]
+			elif 'mutated-key-object' == shape:
+				steps += [
+					['derive', 'k', up(key_values[0]), 'a', identifier], ['str', 'a'], ['mutate_key', 'k', up(key_values[1])], ['derive', 'k', up(key_values[1]), 'b', identifier],
+					['str', 'b'], ['str', 'a'], ['valid_text', 'b', identifier], ['roundtrip', 'b'], ['mutate_key', 'k', up(key_values[0])],
+					['derive', 'k', up(key_values[0]), 'c', identifier], ['str', 'c'], ['roundtrip', 'c'], ['valid', 'a', identifier]]
+			elif 'copies' == shape:
+				steps += [
+					['new', 'a', up(valid[0])], ['str', 'a'], ['copy', 'a', 'b'], ['set', 'a', up(replacements[0])], ['str', 'b'], ['str', 'a'], ['copy', 'a', 'c'], ['str', 'c'],
+					['valid_text', 'c', identifier], ['valid_text', 'b', identifier], ['set', 'b', up(valid[1])], ['roundtrip', 'b'], ['roundtrip', 'a'], ['str', 'c']]
+			else:
+				steps += [['new', 'a', up(valid[0])], ['derive', 'k0', up(key_values[0]), 'b', identifier]]
+				names = ['a', 'b']
+				for _ in range(rng.randrange(6, 16)):
+					name = rng.choice(names)
+					pick = rng.random()
+					if pick < 0.3:
+						steps.append(['set', name, up(rng.choice(replacements + valid))])
+					elif pick < 0.4:
+						names.append(f'c{len(names)}')
+						steps.append(['copy', name, names[-1]])
+					else:
+						steps.append(rng.choice(inspect(name)))
+			cases.append({'op': 'history', 'net': kind, 'id': identifier, 'shipped': shipped, 'steps': steps, 'shape': shape})
 	for _ in range(ctx.scale(200, 2000)):
 		cases.append({'op': 'base32', 'net': 'symbol', 'id': 0, 'data': rng.bytes_(rng.choice([0, 1, 2, 3, 4, 5, 6, 9, 10, 20, 24, 25, 26, 50])).hex().upper()})
 	return cases
